@@ -470,6 +470,15 @@ def _int_cmp(op, a, b):
     d = mk_bin('+', force_num(b, _LIN), mk_neg(force_num(a, _LIN), _LIN), _LIN)
     if op == '<=':
         d = mk_bin('+', d, C(1), _LIN)
+    # the comparison is 0 < d; its negation is 0 < 1-d: one of the two is the canonical atom, the other its `not`
+    p = _int_norm(d)
+    q = _int_norm(mk_bin('+', C(1), mk_neg(d, _LIN), _LIN))
+    if is_c(p) or is_c(q):
+        return p
+    return p if skey(p) <= skey(q) else ('not', q)
+
+
+def _int_norm(d):
     items = list(d[1]) if d[0] == '+' else [d]
     left, right, const = [], [], 0
     for x in items:
@@ -1599,6 +1608,15 @@ class PE:
                     tmp = []
                     self.emit_if(mk_bool('and', [c1, mk_not(c2)]), list(Y), list(X), tmp)
                     return tmp
+        if len(A) >= 1 and len(B) >= 1 and A[-1][0] == 'exit' and B[-1][0] == 'exit' and A[-1][1] == B[-1][1] \
+                and A[-1][1] in ('return', 'end') and (len(A) > 1 or len(B) > 1):
+            # both branches leave the function the same way: one exit after the `if`, with conditional value and state
+            merged = []
+            self.emit_if(c, [A[-1]], [B[-1]], merged)
+            if len(merged) == 1 and merged[0][0] == 'exit':
+                tmp = []
+                self.emit_if(c, list(A[:-1]), list(B[:-1]), tmp)
+                return tmp + merged
         tmp = []
         self.emit_if(c, list(A), list(B), tmp)
         return tmp
